@@ -32,7 +32,7 @@ def handle (line : String) : String :=
     match n.toNat?, tape.mapM String.toNat? with
     | some n, some tape =>
       match decomposePQ n tape with
-      | .ok (p, q) => s!"ok {p} {q}"
+      | .ok (p, q) => s!"ok {p} {q} rounds={(decomposeRounds n tape).getD 0}"
       | .error .tape => "tape"
       | .error .panic => "panic"
     | _, _ => "bad-op"
